@@ -91,16 +91,27 @@ fn check(c: &FxCase, obs: &mut O) -> Verdict {
     let requests = Rc::new(RefCell::new(vec![]));
     let bank = FakeBank { cal: c.cal.clone(), cutoff: c.cutoff, requests: requests.clone() };
     let shared: acb::util::rc::RcRefCell<std::collections::HashMap<u32, Vec<acb::fx::DailyRate>>> = acb::util::rc::RcRefCellT::new(std::collections::HashMap::new());
+    // half of the inherited caches are the CLI's rates-<year>.csv files in a scratch directory, the others the in-memory cache
+    let file_dir: Option<std::path::PathBuf> = match &c.earlier_run { Some((et, _)) if et.ordinal() % 2 == 0 => {
+        static N: std::sync::atomic::AtomicU64 = std::sync::atomic::AtomicU64::new(0);
+        let base = if std::path::Path::new("/dev/shm").is_dir() { std::path::PathBuf::from("/dev/shm") } else { std::env::temp_dir() };
+        let d = base.join(format!("acbverif-c12-{}-{}", std::process::id(), N.fetch_add(1, std::sync::atomic::Ordering::Relaxed)));
+        let _ = std::fs::remove_dir_all(&d); let _ = std::fs::create_dir_all(&d); Some(d) } _ => None };
+    struct Rm(Option<std::path::PathBuf>);
+    impl Drop for Rm { fn drop(&mut self) { if let Some(d) = &self.0 { let _ = std::fs::remove_dir_all(d); } } }
+    let _rm = Rm(file_dir.clone());
+    let cache = || -> Box<dyn acb::fx::io::RatesCache> { match &file_dir { Some(d) => Box::new(acb::fx::io::CsvRatesCache::new(d.clone(), WriteHandle::empty_write_handle())), None => Box::new(InMemoryRatesCache { rates_by_year: shared.clone() }) } };
     if let Some((et, looks)) = &c.earlier_run {
         // the earlier run, by the product itself, over what the bank had published by then
         acb::util::date::set_todays_date_for_test(*et);
         let bank0 = FakeBank { cal: c.cal.clone(), cutoff: *et, requests: Rc::new(RefCell::new(vec![])) };
-        let mut l0 = RateLoader::new_cached_remote_loader(false, Box::new(InMemoryRatesCache { rates_by_year: shared.clone() }), Box::new(bank0), WriteHandle::empty_write_handle());
+        let mut l0 = RateLoader::new_cached_remote_loader(false, cache(), Box::new(bank0), WriteHandle::empty_write_handle());
         for d in looks { let _ = guard(|| l0.blocking_get_effective_usd_cad_rate(*d)); }
         acb::util::date::set_todays_date_for_test(c.today);
         obs.class("inherits-the-cache-of-an-earlier-run");
+        if file_dir.is_some() { obs.class("inherited-cache-is-rates-csv-files"); }
     }
-    let mut loader = RateLoader::new_cached_remote_loader(false, Box::new(InMemoryRatesCache { rates_by_year: shared.clone() }), Box::new(bank), WriteHandle::empty_write_handle());
+    let mut loader = RateLoader::new_cached_remote_loader(false, cache(), Box::new(bank), WriteHandle::empty_write_handle());
     for d in &c.lookups {
         let want = reference(&c.cal, c.cutoff, c.today, *d);
         let got = match guard(|| loader.blocking_get_effective_usd_cad_rate(*d)) { Ok(g) => g, Err(p) => return Verdict::Fail(format!("panic looking up {d}: {}", p.sig())) };
@@ -194,7 +205,7 @@ fn check_rows(c: &RowCase, obs: &mut O) -> Verdict {
 }
 
 pub fn def() -> PropDef {
-    let mut d = PropDef::new("C12", "generated Bank of Canada publication calendars over 2-4 consecutive years starting 2014-2016 (so they span the 2016/2017 series change): weekdays with random holidays, exact gaps of 5,6,7,8,9,12 days, a gap across New Year, optionally a year without data, malformed observations (zero, negative, text, missing value, wrong types, junk entries), served as valet JSON by a fake HTTP endpoint; 'today' anywhere in the span (remote data up to yesterday or today); 8-60 look-ups per calendar at gap edges +-10 days, year edges, today-2..today+2 and random dates, compared with a 15-line reference function (day's rate, else latest within 7 days before if the date is in the past, else error; daily series inverted with the same Decimal division). A second sub-check feeds rows (USD/CAD/EUR, trade and commission currency, with and without explicit rate) through the application and compares the rate each row got. Non-trivial = look-up on an unpublished day, or within 1 day of today, or whose look-back crosses a year boundary; rows: a USD row that needs the bank rate, or a run that must stop. Distinct = distinct case content.");
+    let mut d = PropDef::new("C12", "generated Bank of Canada publication calendars over 2-4 consecutive years starting 2014-2016 (so they span the 2016/2017 series change): weekdays with random holidays, exact gaps of 5,6,7,8,9,12 days, a gap across New Year, optionally a year without data, malformed observations (zero, negative, text, missing value, wrong types, junk entries), served as valet JSON by a fake HTTP endpoint; 'today' anywhere in the span (remote data up to yesterday or today); a third of the runs inherit the cache of an earlier run of the product (half of those as the CLI's rates-<year>.csv files in a scratch directory, half in memory); 8-60 look-ups per calendar at gap edges +-10 days, year edges, today-2..today+2 and random dates, compared with a 15-line reference function (day's rate, else latest within 7 days before if the date is in the past, else error; daily series inverted with the same Decimal division). A second sub-check feeds rows (USD/CAD/EUR, trade and commission currency, with and without explicit rate) through the application and compares the rate each row got. Non-trivial = look-up on an unpublished day, or within 1 day of today, or whose look-back crosses a year boundary; rows: a USD row that needs the bank rate, or a run that must stop. Distinct = distinct case content.");
     d.assumptions = vec!["the fake endpoint follows the documented valet JSON schema; TLS / HTTP failures are not explored", "observations are served in date order, as the bank does"];
     d.subs.push(Box::new(Sub::<FxCase> { name: "lookup", cases_quick: 36_000, cases_thorough: 1_500_000, strategy: Box::new(strategy), to_json: FxCase::to_json, from_json: FxCase::from_json, check }));
     d.subs.push(Box::new(Sub::<RowCase> { name: "rows", cases_quick: 36_000, cases_thorough: 1_500_000, strategy: Box::new(row_strategy), to_json: |c| { let mut j = c.fx.to_json(); j["rows"] = JsonValue::Array(c.rows.iter().map(|r| JsonValue::Array(vec![r.0.as_str().into(), r.1.as_str().into(), r.2.as_str().into(), r.3.as_str().into(), r.4.as_str().into()])).collect()); j }, from_json: |v| Some(RowCase { fx: FxCase::from_json(v)?, rows: v["rows"].members().map(|r| (r[0].as_str().unwrap_or("").to_string(), r[1].as_str().unwrap_or("").to_string(), r[2].as_str().unwrap_or("").to_string(), r[3].as_str().unwrap_or("").to_string(), r[4].as_str().unwrap_or("").to_string())).collect() }), check: check_rows }));
